@@ -62,12 +62,12 @@ def writeCcr (bit : Nat) (val : BitVec 8) : M Unit :=
 
 def readCcr (bit : Nat) : M (BitVec 8) := fun s => .ok ((s.ccr >>> bit) &&& 1) s
 
-def cC : Nat := 0
-def cV : Nat := 1
-def cZ : Nat := 2
-def cN : Nat := 3
-def cH : Nat := 5
-def cI : Nat := 7
+notation "cC" => (0 : Nat)
+notation "cV" => (1 : Nat)
+notation "cZ" => (2 : Nat)
+notation "cN" => (3 : Nat)
+notation "cH" => (5 : Nat)
+notation "cI" => (7 : Nat)
 
 /-! ## registers (addressing_mode/rn.rs) -/
 
@@ -76,26 +76,35 @@ def getEr (r : Regs) (i : BitVec 8) : BitVec 32 := (r >>> shOf i).setWidth 32
 def setEr (r : Regs) (i : BitVec 8) (v : BitVec 32) : Regs :=
   (r &&& ~~~(0xffffffff#256 <<< shOf i)) ||| (v.setWidth 256 <<< shOf i)
 
+/-- value read by `read_rn_b` for a valid field (0–7 RnH, 8–15 RnL) -/
+def rdB (r : Regs) (f : BitVec 8) : BitVec 8 :=
+  if f.ule 7 then (getEr r f >>> 8).setWidth 8 else (getEr r (f - 8)).setWidth 8
+
+def wrB (r : Regs) (f : BitVec 8) (v : BitVec 8) : Regs :=
+  if f.ule 7 then setEr r f ((getEr r f &&& 0xffff00ff) ||| (v.setWidth 32 <<< 8))
+  else setEr r (f - 8) ((getEr r (f - 8) &&& 0xffffff00) ||| v.setWidth 32)
+
+def rdW (r : Regs) (f : BitVec 8) : BitVec 16 :=
+  if f.ule 7 then (getEr r f).setWidth 16 else (getEr r (f - 8) >>> 16).setWidth 16
+
+def wrW (r : Regs) (f : BitVec 8) (v : BitVec 16) : Regs :=
+  if f.ule 7 then setEr r f ((getEr r f &&& 0xffff0000) ||| v.setWidth 32)
+  else setEr r (f - 8) ((getEr r (f - 8) &&& 0x0000ffff) ||| (v.setWidth 32 <<< 16))
+
+/-- read_rn_b: fields 0–15 are valid, anything else is `bail!` -/
 def readRnB (f : BitVec 8) : M (BitVec 8) := fun s =>
-  if f.ule 7 then .ok ((getEr s.regs f >>> 8).setWidth 8) s
-  else if f.ule 15 then .ok ((getEr s.regs (f - 8)).setWidth 8) s
-  else .err
+  if f.ule 15 then .ok (rdB s.regs f) s else .err
 
 def writeRnB (f : BitVec 8) (v : BitVec 8) : M Unit := fun s =>
-  if f.ule 7 then .ok () { s with regs := setEr s.regs f ((getEr s.regs f &&& 0xffff00ff) ||| (v.setWidth 32 <<< 8)) }
-  else if f.ule 15 then .ok () { s with regs := setEr s.regs (f - 8) ((getEr s.regs (f - 8) &&& 0xffffff00) ||| v.setWidth 32) }
-  else .err
+  if f.ule 15 then .ok () { s with regs := wrB s.regs f v } else .err
 
 def readRnW (f : BitVec 8) : M (BitVec 16) := fun s =>
-  if f.ule 7 then .ok ((getEr s.regs f).setWidth 16) s
-  else if f.ule 15 then .ok ((getEr s.regs (f - 8) >>> 16).setWidth 16) s
-  else .err
+  if f.ule 15 then .ok (rdW s.regs f) s else .err
 
 def writeRnW (f : BitVec 8) (v : BitVec 16) : M Unit := fun s =>
-  if f.ule 7 then .ok () { s with regs := setEr s.regs f ((getEr s.regs f &&& 0xffff0000) ||| v.setWidth 32) }
-  else if f.ule 15 then .ok () { s with regs := setEr s.regs (f - 8) ((getEr s.regs (f - 8) &&& 0x0000ffff) ||| (v.setWidth 32 <<< 16)) }
-  else .err
+  if f.ule 15 then .ok () { s with regs := wrW s.regs f v } else .err
 
+/-- read_rn_l: only 0–7 -/
 def readRnL (f : BitVec 8) : M (BitVec 32) := fun s =>
   if f.ule 7 then .ok (getEr s.regs f) s else .err
 
@@ -204,14 +213,20 @@ def fetch32 : M (BitVec 32) := do
   let lo ← fetch
   pure ((hi.setWidth 32 <<< 16) ||| lo.setWidth 32)
 
-/-- the five bus-controller bytes as the cost function reads them (`self.bus.read(ABWCR)?` …) -/
-def calcStateWithAddr (k : Kind) (n : BitVec 8) (addr : BitVec 32) : M (BitVec 8) := fun s =>
+/-- value of `calc_state_with_addr` in state `s` (`none` = error): reads the five bus-controller bytes
+    (`self.bus.read(ABWCR)?` …) and applies the translated cost function -/
+def costAt (s : Cpu) (k : Kind) (n : BitVec 8) (addr : BitVec 32) : Option (BitVec 8) :=
   let rd (a : Nat) : Option (BitVec 8) := match s.bus.read (BitVec.ofNat 32 a) with | .ok v => some v | _ => none
   match rd Gen.ABWCR, rd Gen.ASTCR, rd Gen.WCRH, rd Gen.WCRL, rd Gen.DRCRA with
   | some abwcr, some astcr, some wcrh, some wcrl, some drcra =>
     let r := Gen.calc_state_with_addr abwcr astcr wcrh wcrl drcra k n addr
-    if R8.isErr r then .err else .ok (R8.val r) s
-  | _, _, _, _, _ => .err
+    if R8.isErr r then none else some (R8.val r)
+  | _, _, _, _, _ => none
+
+def calcStateWithAddr (k : Kind) (n : BitVec 8) (addr : BitVec 32) : M (BitVec 8) := fun s =>
+  match costAt s k n addr with
+  | some c => .ok c s
+  | none => .err
 
 /-- `calc_state`: L and M need an address -/
 def calcState (k : Kind) (n : BitVec 8) : M (BitVec 8) := fun s =>
@@ -264,7 +279,8 @@ def addxProc (dest src : BitVec 8) : M (BitVec 8) := do
   let o2 := (!v1.msb) && value.msb
   writeCcr cH (if BitVec.ult 0x0f#8 ((dest &&& 0x0f) + (src &&& 0x0f) + carry) then 1 else 0)
   writeCcr cN (if value.msb then 1 else 0)
-  if value != 0 then writeCcr cZ 0
+  -- `if value != 0 { self.write_ccr(CCR::Z, 0); }`
+  modify fun st => { st with ccr := if value != 0 then changeCcrV st.ccr cZ false else st.ccr }
   writeCcr cV (if o1 != o2 then 1 else 0)
   writeCcr cC (if BitVec.ult 0xff#16 (dest.setWidth 16 + src.setWidth 16 + carry.setWidth 16) then 1 else 0)
   pure value
@@ -482,49 +498,6 @@ def movAbs24 (sz : Sz) (w : BitVec 16) : M (BitVec 8) := do
   let c2 ← calcStateWithAddr sz.dataKind sz.dataCount a
   pure (c1 + c2)
 
-def movB (op : BitVec 16) : M (BitVec 8) :=
-  let h := (op >>> 8).setWidth 8
-  if h == 0x0c then movRn .B op
-  else if h.toNat ≥ 0xf0 then movImm .B op
-  else if h == 0x68 then movErn .B op
-  else if h == 0x6e then movDisp16 .B op
-  else if h == 0x6c then movIncOrDec .B op
-  else if 0x20 ≤ h.toNat ∧ h.toNat ≤ 0x3f then movBAbs8 op
-  else if h == 0x6a then
-    (if op &&& 0xfff0 == 0x6a00 ∨ op &&& 0xfff0 == 0x6a80 then movAbs16 .B op
-     else if op &&& 0xfff0 == 0x6a20 ∨ op &&& 0xfff0 == 0x6aa0 then movAbs24 .B op
-     else M.fail)
-  else M.fail
-
-def movW (op : BitVec 16) : M (BitVec 8) :=
-  let h := (op >>> 8).setWidth 8
-  if h == 0x0d then movRn .W op
-  else if h == 0x79 then movImm .W op
-  else if h == 0x69 then movErn .W op
-  else if h == 0x6f then movDisp16 .W op
-  else if h == 0x6d then movIncOrDec .W op
-  else if h == 0x6b then
-    (if op &&& 0xfff0 == 0x6b00 ∨ op &&& 0xfff0 == 0x6b80 then movAbs16 .W op
-     else if op &&& 0xfff0 == 0x6b20 ∨ op &&& 0xfff0 == 0x6ba0 then movAbs24 .W op
-     else M.fail)
-  else M.fail
-
-def movL (op : BitVec 16) : M (BitVec 8) := do
-  if op &&& 0xff80 == 0x0f80 then movRn .L op
-  else if op &&& 0xfff8 == 0x7a00 then movImm .L op
-  else
-    let op2 ← fetch
-    let h := (op2 >>> 8).setWidth 8
-    if h == 0x69 then movErn .L op2
-    else if h == 0x6f then movDisp16 .L op2
-    else if h == 0x78 then movLDisp24 op2
-    else if h == 0x6d then movIncOrDec .L op2
-    else if h == 0x6b then
-      (if op2 &&& 0xfff0 == 0x6b00 ∨ op2 &&& 0xfff0 == 0x6b80 then movAbs16 .L op2
-       else if op2 &&& 0xfff0 == 0x6b20 ∨ op2 &&& 0xfff0 == 0x6ba0 then movAbs24 .L op2
-       else M.fail)
-    else M.fail
-
 /-! ## arithmetic -/
 
 /-- add_b_imm / add_b_rn / add_w_* / add_l_* / sub_* / cmp_* share this shape:
@@ -536,17 +509,15 @@ def aluImmB (proc : BitVec 8 → BitVec 8 → M (BitVec 8)) (wb : Bool) (op : Bi
   if wb then writeRnB r res
   costI 1
 
-def addB (op : BitVec 16) : M (BitVec 8) :=
-  let h := (op >>> 8).setWidth 8
-  if 0x80 ≤ h.toNat ∧ h.toNat ≤ 0x8f then aluImmB addProc true op
-  else if h == 0x08 then do
-    let rd := nib op 4
-    let d ← readRnB rd
-    let s ← readRnB (nib op 3)
-    let r ← addProc d s
-    writeRnB rd r
-    costI 1
-  else M.fail
+def addBImm (op : BitVec 16) : M (BitVec 8) := aluImmB addProc true op
+
+def addBRn (op : BitVec 16) : M (BitVec 8) := do
+  let rd := nib op 4
+  let d ← readRnB rd
+  let s ← readRnB (nib op 3)
+  let r ← addProc d s
+  writeRnB rd r
+  costI 1
 
 def addWImm (op : BitVec 16) : M (BitVec 8) := do
   let imm ← fetch
@@ -564,10 +535,6 @@ def addWRn (op : BitVec 16) : M (BitVec 8) := do
   writeRnW rd r
   costI 1
 
-def addW (op : BitVec 16) : M (BitVec 8) :=
-  let h := (op >>> 8).setWidth 8
-  if h == 0x79 then addWImm op else if h == 0x09 then addWRn op else M.fail
-
 def addLImm (op : BitVec 16) : M (BitVec 8) := do
   let imm ← fetch32
   let r := nib op 4
@@ -583,10 +550,6 @@ def addLRn (op : BitVec 16) : M (BitVec 8) := do
   let r ← addProc d s
   writeRnL rd r
   costI 1
-
-def addL (op : BitVec 16) : M (BitVec 8) :=
-  let h := (op >>> 8).setWidth 8
-  if h == 0x7a then addLImm op else if h == 0x0a then addLRn op else M.fail
 
 def subB (op : BitVec 16) : M (BitVec 8) := do
   let rd := nib op 4
@@ -612,10 +575,6 @@ def subWRn (op : BitVec 16) : M (BitVec 8) := do
   writeRnW rd r
   costI 1
 
-def subW (op : BitVec 16) : M (BitVec 8) :=
-  let h := (op >>> 8).setWidth 8
-  if h == 0x79 then subWImm op else if h == 0x19 then subWRn op else M.fail
-
 def subLImm (op : BitVec 16) : M (BitVec 8) := do
   let imm ← fetch32
   let r := nib op 4
@@ -631,10 +590,6 @@ def subLRn (op : BitVec 16) : M (BitVec 8) := do
   let r ← subCalc d s
   writeRnL rd r
   costI 1
-
-def subL (op : BitVec 16) : M (BitVec 8) :=
-  let h := (op >>> 8).setWidth 8
-  if h == 0x7a then subLImm op else if h == 0x1a then subLRn op else M.fail
 
 def cmpBImm (op : BitVec 16) : M (BitVec 8) := aluImmB subCalc false op
 
@@ -858,8 +813,8 @@ def shiftK {n : Nat} (o : ShOp) (src : BitVec n) (ccr : BitVec 8) : BitVec n × 
   | .shlr => let r := src >>> 1; (r, false, r == 0, false, src.getLsbD 0)
   | .rotl => let r := (src <<< 1) ||| (src >>> (n - 1)); (r, r.msb, r == 0, false, r.getLsbD 0)
   | .rotr => let r := (src >>> 1) ||| (src <<< (n - 1)); (r, r.msb, r == 0, false, src.getLsbD 0)
-  | .rotxl => let r := (src <<< 1) ||| (if cin then 1 else 0); (r, r.msb, r == 0, false, src.msb)
-  | .rotxr => let r := (src >>> 1) ||| (if cin then top else 0); (r, r.msb, r == 0, false, src.getLsbD 0)
+  | .rotxl => let r := (src <<< 1) ||| (BitVec.ofBool cin).setWidth n; (r, r.msb, r == 0, false, src.msb)
+  | .rotxr => let r := (src >>> 1) ||| ((BitVec.ofBool cin).setWidth n <<< (n - 1)); (r, r.msb, r == 0, false, src.getLsbD 0)
 
 def shift (o : ShOp) (sz : Sz) (op : BitVec 16) : M (BitVec 8) := do
   let r := nib op 4
@@ -1077,26 +1032,20 @@ def bccTaken (c : BitVec 4) (ccr : BitVec 8) : Bool :=
   | 14 => (Z ||| (N ^^^ V)) == 0
   | _ => (Z ||| (N ^^^ V)) == 1
 
-def bcc8 (op : BitVec 16) : M (BitVec 8) := do
-  let c : BitVec 4 := (op >>> 8).setWidth 4
+/-- bra8 … ble8: `c` is the position of the function in the condition table -/
+def bcc8 (c : BitVec 4) (op : BitVec 16) : M (BitVec 8) := do
   let s ← M.get
   if bccTaken c s.ccr then pcDisp ((op.setWidth 8).signExtend 32)
   costI 2
 
-def bcc16 (op : BitVec 16) : M (BitVec 8) := do
-  let c : BitVec 4 := (op >>> 4).setWidth 4
+/-- bra16 … ble16 -/
+def bcc16 (c : BitVec 4) : M (BitVec 8) := do
   let op2 ← fetch
   let s ← M.get
   if bccTaken c s.ccr then pcDisp (op2.signExtend 32)
   let c1 ← costI 2
   let c2 ← calcState .N 2
   pure (c1 + c2)
-
-def bcc (op : BitVec 16) : M (BitVec 8) :=
-  let h := (op >>> 8).setWidth 8
-  if 0x40 ≤ h.toNat ∧ h.toNat ≤ 0x4f then bcc8 op
-  else if h == 0x58 then (if op &&& 0x000f == 0 then bcc16 op else M.fail)
-  else M.fail
 
 def bsrDisp8 (op : BitVec 16) : M (BitVec 8) := do
   let sp ← readRnL 7
@@ -1141,10 +1090,6 @@ def jmpIndirect (op : BitVec 16) : M (BitVec 8) := do
   let c3 ← calcState .N 2
   pure (c1 + c2 + c3)
 
-def jmp (op : BitVec 16) : M (BitVec 8) :=
-  let h := (op >>> 8).setWidth 8
-  if h == 0x59 then jmpErn op else if h == 0x5a then jmpAbs op else if h == 0x5b then jmpIndirect op else M.fail
-
 def jsrErn (op : BitVec 16) : M (BitVec 8) := do
   let sp ← readRnL 7
   let a := (sp - 4) &&& ADDRESS_MASK
@@ -1180,10 +1125,6 @@ def jsrIndirect (op : BitVec 16) : M (BitVec 8) := do
   let c2 ← calcStateWithAddr .J 2 va
   let c3 ← calcStateWithAddr .K 2 sa
   pure (c1 + c2 + c3)
-
-def jsr (op : BitVec 16) : M (BitVec 8) :=
-  let h := (op >>> 8).setWidth 8
-  if h == 0x5d then jsrErn op else if h == 0x5e then jsrAbs op else if h == 0x5f then jsrIndirect op else M.fail
 
 def rts : M (BitVec 8) := do
   let sp ← readRnL 7
@@ -1342,205 +1283,5 @@ def stcAbs24 : M (BitVec 8) := do
   let c1 ← costI 4
   let c2 ← calcStateWithAddr .M 1 a
   pure (c1 + c2)
-
-/-! ## dispatch (`Cpu::exec`) -/
-
-def inR (x : BitVec 8) (lo hi : Nat) : Bool := lo ≤ x.toNat && x.toNat ≤ hi
-
-def exec (op : BitVec 16) : M (BitVec 8) :=
-  let h : BitVec 8 := (op >>> 8).setWidth 8
-  let l : BitVec 8 := op.setWidth 8
-  if h == 0x0c || inR h 0xf0 0xff || h == 0x68 || h == 0x6e || h == 0x6c || inR h 0x20 0x3f || h == 0x6a then movB op
-  else if h == 0x0d || h == 0x69 || h == 0x6f || h == 0x6d || h == 0x6b then movW op
-  else if h == 0x0f then (if inR l 0x80 0xff then movL op else M.fail)
-  else if h == 0x01 then
-    (if l == 0x00 then movL op
-     else if l == 0x40 then do
-       let op2 ← fetch
-       let h2 : BitVec 8 := (op2 >>> 8).setWidth 8
-       if h2 == 0x69 && op2 &&& 0x0080 != 0 then stcWErn op2
-       else if h2 == 0x6f && op2 &&& 0x0080 != 0 then stcWDisp16 op2
-       else if h2 == 0x78 then stcWDisp24 op2
-       else if h2 == 0x6d && op2 &&& 0x0080 != 0 then stcWIncErn op2
-       else if h2 == 0x6b then
-         (if op2.setWidth 8 == (0x80 : BitVec 8) then stcAbs16
-          else if op2.setWidth 8 == (0xa0 : BitVec 8) then stcAbs24 else M.fail)
-       else M.fail
-     else if l == 0xf0 then do
-       let op2 ← fetch
-       let h2 : BitVec 8 := (op2 >>> 8).setWidth 8
-       if h2 == 0x64 then logicRn .or .L op2 2
-       else if h2 == 0x65 then logicRn .xor .L op2 2
-       else if h2 == 0x66 then logicRn .and .L op2 2
-       else M.fail
-     else M.fail)
-  else if h == 0x02 then stcB op
-  else if h == 0x50 then mulxuB op
-  else if h == 0x52 then mulxuW op
-  else if h == 0x51 then divxuB op
-  else if h == 0x53 then divxuW op
-  else if h == 0x55 then bsrDisp8 op
-  else if h == 0x5c then bsrDisp16 op
-  else if h == 0x60 then bmodRnRn .set op
-  else if h == 0x61 then bmodRnRn .not_ op
-  else if h == 0x62 then bmodRnRn .clr op
-  else if h == 0x63 then btstRnRn op
-  else if h == 0x67 then (if op &&& 0x80 == 0 then bstRn false op else bstRn true op)
-  else if h == 0x70 then bmodRnImm .set op
-  else if h == 0x71 then bmodRnImm .not_ op
-  else if h == 0x72 then bmodRnImm .clr op
-  else if h == 0x73 then btstImmRn op
-  else if h == 0x74 then (if op &&& 0x80 == 0 then baccRn .or op else baccRn .ior op)
-  else if h == 0x75 then (if op &&& 0x80 == 0 then baccRn .xor op else baccRn .ixor op)
-  else if h == 0x76 then (if op &&& 0x80 == 0 then baccRn .and op else baccRn .iand op)
-  else if h == 0x77 then (if op &&& 0x80 == 0 then baccRn .ld op else baccRn .ild op)
-  else if h == 0x78 then do
-    let op2 ← fetch
-    let h2 : BitVec 8 := (op2 >>> 8).setWidth 8
-    if h2 == 0x6a then movDisp24BW .B op op2
-    else if h2 == 0x6b then movDisp24BW .W op op2
-    else M.fail
-  else if h == 0x79 then
-    (let k := op &&& 0x00f0
-     if k == 0x00 then movW op
-     else if k == 0x10 then addW op
-     else if k == 0x20 then cmpWImm op
-     else if k == 0x30 then subW op
-     else if k == 0x40 then logicWImm .or op
-     else if k == 0x50 then logicWImm .xor op
-     else if k == 0x60 then logicWImm .and op
-     else M.fail)
-  else if h == 0x7a then
-    (let k := op &&& 0x00f0
-     if k == 0x00 then movL op
-     else if k == 0x10 then addL op
-     else if k == 0x20 then cmpLImm op
-     else if k == 0x30 then subL op
-     else if k == 0x40 then logicLImm .or op
-     else if k == 0x50 then logicLImm .xor op
-     else if k == 0x60 then logicLImm .and op
-     else M.fail)
-  else if h == 0x7c || h == 0x7e then do
-    let op2 ← fetch
-    let k := op2 &&& 0xff80
-    let ern := h == 0x7c
-    let acc (o : BAcc) := if ern then baccErn o op op2 else baccAbs o op op2
-    if k == 0x6300 || k == 0x6380 then (if ern then btstErn true op op2 else btstAbs true op op2)
-    else if k == 0x7300 then (if ern then btstErn false op op2 else btstAbs false op op2)
-    else if k == 0x7400 then acc .or
-    else if k == 0x7480 then acc .ior
-    else if k == 0x7500 then acc .xor
-    else if k == 0x7580 then acc .ixor
-    else if k == 0x7600 then acc .and
-    else if k == 0x7680 then acc .iand
-    else if k == 0x7700 then acc .ld
-    else if k == 0x7780 then acc .ild
-    else M.fail
-  else if h == 0x7d || h == 0x7f then do
-    let op2 ← fetch
-    let k := op2 &&& 0xff80
-    let ern := h == 0x7d
-    let bm (m : BMod) (it rt : BitVec 16) := if ern then bmodErn m it rt op op2 else bmodAbs m it rt op op2
-    if k == 0x6000 || k == 0x6080 || k == 0x7000 then bm .set 0x7000 0x6000
-    else if k == 0x6100 || k == 0x6180 || k == 0x7100 then bm .not_ 0x7100 0x6100
-    else if k == 0x6200 || k == 0x6280 || k == 0x7200 then bm .clr 0x7200 0x6200
-    else if k == 0x6700 then (if ern then bstErn false op op2 else bstAbs false op op2)
-    else if k == 0x6780 then (if ern then bstErn true op op2 else bstAbs true op op2)
-    else M.fail
-  else if h == 0x0a then
-    (if inR l 0x00 0x0f then inc .B 1 op else if inR l 0x80 0xf7 then addL op else M.fail)
-  else if h == 0x0b then
-    (if inR l 0x50 0x5f then inc .W 1 op
-     else if inR l 0xd0 0xdf then inc .W 2 op
-     else if inR l 0x70 0x77 then inc .L 1 op
-     else if inR l 0xf0 0xf7 then inc .L 2 op
-     else if inR l 0x00 0x07 then addsSubs 1 op
-     else if inR l 0x80 0x87 then addsSubs 2 op
-     else if inR l 0x90 0x97 then addsSubs 4 op
-     else M.fail)
-  else if h == 0x10 then
-    (if inR l 0x00 0x0f then shift .shll .B op
-     else if inR l 0x10 0x1f then shift .shll .W op
-     else if inR l 0x30 0x37 then shift .shll .L op
-     else if inR l 0x80 0x8f then shift .shal .B op
-     else if inR l 0x90 0x9f then shift .shal .W op
-     else if inR l 0xb0 0xb7 then shift .shal .L op
-     else M.fail)
-  else if h == 0x11 then
-    (if inR l 0x00 0x0f then shift .shlr .B op
-     else if inR l 0x10 0x1f then shift .shlr .W op
-     else if inR l 0x30 0x3f then shift .shlr .L op
-     else if inR l 0x80 0x8f then shift .shar .B op
-     else if inR l 0x90 0x9f then shift .shar .W op
-     else if inR l 0xb0 0xb7 then shift .shar .L op
-     else M.fail)
-  else if h == 0x12 then
-    (if inR l 0x00 0x0f then shift .rotxl .B op
-     else if inR l 0x10 0x1f then shift .rotxl .W op
-     else if inR l 0x30 0x37 then shift .rotxl .L op
-     else if inR l 0x80 0x8f then shift .rotl .B op
-     else if inR l 0x90 0x9f then shift .rotl .W op
-     else if inR l 0xb0 0xb7 then shift .rotl .L op
-     else M.fail)
-  else if h == 0x13 then
-    (if inR l 0x00 0x0f then shift .rotxr .B op
-     else if inR l 0x10 0x1f then shift .rotxr .W op
-     else if inR l 0x30 0x37 then shift .rotxr .L op
-     else if inR l 0x80 0x8f then shift .rotr .B op
-     else if inR l 0x90 0x9f then shift .rotr .W op
-     else if inR l 0xb0 0xb7 then shift .rotr .L op
-     else M.fail)
-  else if h == 0x17 then
-    (if inR l 0x00 0x0f then unary .B notProc op
-     else if inR l 0x10 0x1f then unary .W notProc op
-     else if inR l 0x30 0x37 then unary .L notProc op
-     else if inR l 0x50 0x5f then extu .W op
-     else if inR l 0x70 0x77 then extu .L op
-     else if inR l 0x80 0x8f then unary .B negProc op
-     else if inR l 0x90 0x9f then unary .W negProc op
-     else if inR l 0xb0 0xb7 then unary .L negProc op
-     else M.fail)
-  else if h == 0x1a then
-    (if inR l 0x00 0x0f then dec .B 1 op else if inR l 0x80 0xf7 then subL op else M.fail)
-  else if h == 0x1b then
-    (if inR l 0x50 0x5f then dec .W 1 op
-     else if inR l 0xd0 0xdf then dec .W 2 op
-     else if inR l 0x70 0x77 then dec .L 1 op
-     else if inR l 0xf0 0xf7 then dec .L 2 op
-     else if inR l 0x00 0x07 then addsSubs 0xffffffff op
-     else if inR l 0x80 0x87 then addsSubs 0xfffffffe op
-     else if inR l 0x90 0x97 then addsSubs 0xfffffffc op
-     else M.fail)
-  else if inR h 0x80 0x8f || h == 0x08 then addB op
-  else if h == 0x09 then addW op
-  else if h == 0x18 then subB op
-  else if h == 0x19 then subW op
-  else if h == 0x1c then cmpBRn op
-  else if inR h 0xa0 0xaf then cmpBImm op
-  else if h == 0x1d then cmpWRn op
-  else if h == 0x1f then (if inR l 0x80 0xf7 then cmpLRn op else M.fail)
-  else if inR h 0xc0 0xcf then logicBImm .or op
-  else if h == 0x14 then logicRn .or .B op 1
-  else if h == 0x64 then logicRn .or .W op 1
-  else if inR h 0xd0 0xdf then logicBImm .xor op
-  else if h == 0x15 then logicRn .xor .B op 1
-  else if h == 0x65 then logicRn .xor .W op 1
-  else if inR h 0xe0 0xef then logicBImm .and op
-  else if h == 0x16 then logicRn .and .B op 1
-  else if h == 0x66 then logicRn .and .W op 1
-  else if inR h 0x90 0x9f then addxImm op
-  else if h == 0x0e then addxRn op
-  else if h == 0x59 || h == 0x5a || h == 0x5b then jmp op
-  else if h == 0x5d || h == 0x5e || h == 0x5f then jsr op
-  else if inR h 0x40 0x4f || h == 0x58 then bcc op
-  else if h == 0x54 then rts
-  else if h == 0x56 then rte
-  else if h == 0x57 then trapa op
-  else M.fail
-
-/-- one instruction: `fetch` + `exec` -/
-def step : M (BitVec 8) := do
-  let op ← fetch
-  exec op
 
 end H8
